@@ -128,6 +128,15 @@ func (c13) RunBatch(ctx *core.Ctx, batch int) {
 				}
 				doc := `{"left":` + string(hb) + `,"operator":"` + op + `","right":` + right + `}`
 				ctx.Case(doc, func() { c13Check(ctx, "hostile-field", doc) })
+				if right == `"v"` {
+					// the same name over a number, a float, a pattern and a nested clause
+					for _, r2 := range []string{`5`, `2.5`, `"w*"`, `"/r/"`, `{"left":"x","operator":"EQUALS","right":1}`} {
+						doc2 := `{"left":` + string(hb) + `,"operator":"` + op + `","right":` + r2 + `}`
+						ctx.Case(doc2, func() { c13Check(ctx, "hostile-field", doc2) })
+						doc3 := `{"left":{"left":"k","operator":"EQUALS","right":"v"},"operator":"AND","right":{"left":{"left":` + string(hb) + `,"operator":"` + op + `","right":` + r2 + `},"operator":"NOT"}}`
+						ctx.Case(doc3, func() { c13Check(ctx, "hostile-field", doc3) })
+					}
+				}
 			}
 			for _, doc := range []string{
 				`{"left":"a","operator":"EQUALS","right":` + string(hb) + `}`,
@@ -150,7 +159,7 @@ func (c13) RunBatch(ctx *core.Ctx, batch int) {
 		if ctx.Thorough() {
 			depths = append(depths, 9000, 11000)
 		}
-		for _, n := range depths {
+		for _, n := range gen.Sizes(depths, 8, 3000) {
 			doc := strings.Repeat(`{"left":`, n) + `"a"` + strings.Repeat(`,"operator":"NOT"}`, n)
 			ctx.Case(fmt.Sprintf("NOT nesting depth %d", n), func() { c13Check(ctx, "deep", doc) })
 			doc2 := strings.Repeat(`{"operator":"AND","right":"b","left":`, n) + `"a"` + strings.Repeat(`}`, n)
